@@ -117,9 +117,12 @@ package base
 //@   ensures[length] now > 0 ==> len(r) == countTrue(pick, la.array.length)
 //@   ensures[placed] forall i Int :: 0 <= i && i < la.array.length && sel(pick, i) ==> r[countTrue(pick, i)] == la.array.data[i] && countTrue(pick, i) < len(r)
 //@   ensures[fresh] len(r) == 0 || fresh(base(r))
+//@   ensures[bounded-length] len(r) <= la.array.length
+//@   ensures[from-data] forall j Int :: 0 <= j && j < len(r) ==> (exists i Int :: 0 <= i && i < la.array.length && sel(pick, i) && r[j] == la.array.data[i])
 //@   modifies nothing
 //@   loop 1:
-//@     invariant[idx] 0 <= i && i <= la.array.length
+//@     invariant[idx] 0 <= i && i <= la.array.length && len(ret) <= i
+//@     invariant[from-data] forall j Int :: 0 <= j && j < len(ret) ==> (exists k Int :: 0 <= k && k < i && sel(pick, k) && ret[j] == la.array.data[k])
 //@     invariant[length] len(ret) == countTrue(pick, i) && fresh(base(ret))
 //@     invariant[positions] forall k Int :: 0 <= k && k < i && sel(pick, k) ==> 0 <= countTrue(pick, k) && countTrue(pick, k) < len(ret)
 //@     invariant[placed] forall k Int :: 0 <= k && k < i && sel(pick, k) ==> ret[countTrue(pick, k)] == la.array.data[k]
@@ -133,9 +136,12 @@ package base
 //@   ensures[length] now > 0 ==> len(r) == countTrue(pick, la.array.length)
 //@   ensures[placed] forall i Int :: 0 <= i && i < la.array.length && sel(pick, i) ==> r[countTrue(pick, i)] == la.array.data[i] && countTrue(pick, i) < len(r)
 //@   ensures[fresh] len(r) == 0 || fresh(base(r))
+//@   ensures[bounded-length] len(r) <= la.array.length
+//@   ensures[from-data] forall j Int :: 0 <= j && j < len(r) ==> (exists i Int :: 0 <= i && i < la.array.length && sel(pick, i) && r[j] == la.array.data[i])
 //@   modifies nothing
 //@   loop 1:
-//@     invariant[idx] 0 <= i && i <= la.array.length
+//@     invariant[idx] 0 <= i && i <= la.array.length && len(ret) <= i
+//@     invariant[from-data] forall j Int :: 0 <= j && j < len(ret) ==> (exists k Int :: 0 <= k && k < i && sel(pick, k) && ret[j] == la.array.data[k])
 //@     invariant[length] len(ret) == countTrue(pick, i) && fresh(base(ret))
 //@     invariant[positions] forall k Int :: 0 <= k && k < i && sel(pick, k) ==> 0 <= countTrue(pick, k) && countTrue(pick, k) < len(ret)
 //@     invariant[placed] forall k Int :: 0 <= k && k < i && sel(pick, k) ==> ret[countTrue(pick, k)] == la.array.data[k]
@@ -151,6 +157,8 @@ package base
 //@   ensures[time-zero] now == 0 ==> len(r) == 0
 //@   ensures[length] now > 0 ==> len(r) == countTrue(pick, la.array.length)
 //@   ensures[placed] forall i Int :: 0 <= i && i < la.array.length && sel(pick, i) ==> r[countTrue(pick, i)] == la.array.data[i] && countTrue(pick, i) < len(r)
+//@   ensures[bounded-length] len(r) <= la.array.length
+//@   ensures[from-data] forall j Int :: 0 <= j && j < len(r) ==> (exists i Int :: 0 <= i && i < la.array.length && sel(pick, i) && r[j] == la.array.data[i])
 //@   modifies nothing
 
 // ---- P4 aggregation
@@ -168,3 +176,23 @@ package base
 //@   modifies nothing
 //@   loop 1:
 //@     invariant[partial-sum] ret == seqsum(vals, #i) && 0 - #i * 1099511627776 <= ret && ret <= #i * 1099511627776
+
+// ---- compaction: summing over the compacted list equals summing over the picked slots (proved by induction)
+//@ spec rec isum(p (Array Int Bool), v (Array Int Int), k Int) Int = k <= 0 ? 0 : isum(p, v, k - 1) + (sel(p, k - 1) ? sel(v, k - 1) : 0)
+//@ ilemma compaction {C08} (pick (Array Int Bool), vr (Array Int Int), vd (Array Int Int), n Int) induction i
+//@   requires forall k Int :: 0 <= k && k < n && sel(pick, k) ==> sel(vr, countTrue(pick, k)) == sel(vd, k)
+//@   ensures 0 <= countTrue(pick, i) && (i <= n ==> seqsum(vr, countTrue(pick, i)) == isum(pick, vd, i))
+
+// a view's sum is the sum, over the array's slots, of the counters of the live buckets in the aligned window
+//@ spec func bucketsOK(la, event) = forall i Int :: 0 <= i && i < la.array.length && la.array.data[i] != nil ==> isBucket(la.array.data[i]) && bounded(bucketOf(la.array.data[i]).counter[event])
+//@ func (m *SlidingWindowMetric) getSumWithTime(now, event) r
+//@   props C08
+//@   requires m != nil && m.real != nil && arrayOK(m.real.data) && m.real.data.bucketLengthInMs > 0 && now < 4611686018427387904
+//@   requires validEvent(event) && m.real.data.array.length <= 65536 && bucketsOK(m.real.data, event)
+//@   let la = m.real.data
+//@   let pick = seqof(i, 0 <= i && i < la.array.length && now > 0 && live(la, now, la.array.data[i]) && inWindow(m, now, la.array.data[i].BucketStart))
+//@   let slotVals = seqof(i, bucketOf(la.array.data[i]).counter[event])
+//@   use compaction(pick, seqof(j, bucketOf(satisfiedBuckets[j]).counter[event]), slotVals, la.array.length)
+//@   ensures[time-zero] now == 0 ==> r == 0
+//@   ensures[window-sum] now > 0 ==> r == isum(pick, slotVals, la.array.length)
+//@   modifies nothing
